@@ -355,3 +355,21 @@ CHECKS["C09"]["runs"] = CHECKS["C09"]["runs"] + [dict(TSRUN, name="client.ts.tim
 CHECKS["C12"]["runs"] = CHECKS["C12"]["runs"] + [{"name": "conc.ts.backpressure", "files": CLITS, "fn": "VerifH_C12_tsBackpressure", "workers": 4, "reach": ["backpressure", "end"], "native": False}]
 CHECKS["C10"]["outside"] = ["MPEG-TS demuxing itself (mpegts.Reader is the boundary; TimeDecoder is interpreted)", "rendition playlists processed by a second stream processor", "byte-range addressing (C11)",
                             "AbsoluteTime of non-leading MPEG-TS units that precede their segment's first leading unit in file order when PROGRAM-DATE-TIME is inconsistent with media time (they are anchored through the previous segment)"]
+
+# ---- extra mux runs, per property ----
+def _mx(name, variant, tracks, kq, kt, reach, **extra):
+    r = {"name": name, "files": MUX, "fn": "VerifH_mux_run", "workers": 16, "params": dict({"VARIANT": variant, "TRACKS": tracks}, **extra),
+         "params_quick": {"K": kq}, "params_thorough": {"K": kt}, "reach": reach, "budget_quick": 900, "budget_thorough": 7200}
+    return r
+
+
+_STD = ["end", "cut", "observe", "decode-segment"]
+OPUS = _mx("run.mux.fmp4.opus", 2, 4, 3, 4, _STD, MAXAUS=2)
+LLVA = _mx("run.mux.ll.video+audio", 3, 1, 4, 5, _STD, VKINDS=2, FREEZEPART=1)
+LLDISK = _mx("run.mux.ll.disk", 3, 0, 4, 5, _STD, VKINDS=2, DISK=1, CLOSE_AT_END=1, FREEZEPART=1)
+for pid, extra in [("C01", [OPUS, LLVA, LLDISK]), ("C02", [OPUS]), ("C03", [OPUS, LLVA]), ("C04", [LLVA]), ("C05", [LLDISK]), ("C18", [LLDISK])]:
+    CHECKS[pid]["runs"] = CHECKS[pid]["runs"] + extra
+CHECKS["C19"]["runs"] = CHECKS["C19"]["runs"] + [
+    {"name": "run.ll.parts.audio", "files": C19F, "fn": "VerifH_C19_run", "workers": 16, "params": {"AUDIO": 1}, "params_quick": {"K": 10}, "params_thorough": {"K": 14},
+     "reach": ["non-final-part", "end"], "budget_quick": 900, "budget_thorough": 7200}]
+CHECKS["C19"]["runs"][0]["params_quick"] = {"TABLE": 19}
